@@ -247,6 +247,32 @@ func advReceivers() []advReceiver {
 
 				return reflect.ValueOf(f)
 			}},
+			// whatever a file-returning method hands back TOGETHER WITH AN ERROR is a handle of the library's own making:
+			// calls on it have to return too (package os hands back a nil *File, whose methods answer ErrInvalid)
+			advReceiver{name: n + ".File(of a failed Create)", skip: map[string]bool{"Name": true}, mk: func() reflect.Value {
+				f, err := mkv().Create("/w/missing/x")
+				if err == nil || f == nil {
+					return reflect.Value{}
+				}
+
+				return reflect.ValueOf(f)
+			}},
+			advReceiver{name: n + ".File(of a failed CreateTemp)", skip: map[string]bool{"Name": true}, mk: func() reflect.Value {
+				f, err := mkv().CreateTemp("/w/missing", "x")
+				if err == nil || f == nil {
+					return reflect.Value{}
+				}
+
+				return reflect.ValueOf(f)
+			}},
+			advReceiver{name: n + ".File(of a failed OpenFile)", skip: map[string]bool{"Name": true}, mk: func() reflect.Value {
+				f, err := mkv().OpenFile("/w/missing/x", os.O_RDWR|os.O_CREATE, 0o644)
+				if err == nil || f == nil {
+					return reflect.Value{}
+				}
+
+				return reflect.ValueOf(f)
+			}},
 			advReceiver{name: n + ".File(nil)", skip: map[string]bool{"Name": true}, mk: func() reflect.Value {
 				f := open(wpath, os.O_RDONLY)
 				if f == nil {
